@@ -37,7 +37,7 @@ def run(prop, tier, seed, replay=None):
         for r in records:
             if ncan >= 6:
                 break
-            if r["runs"][0]["log"] and len(r["runs"][0]["log"][0]["a"]) >= 2:
+            if all(x["log"] and len(x["log"][0]["a"]) >= 2 for x in r["runs"]):
                 bad = copy.deepcopy({k: v for k, v in r.items() if k in ("kind", "prog", "runs")})
                 for run_ in bad["runs"]:
                     run_["log"][0]["a"].pop()
